@@ -96,6 +96,7 @@ Advance ==
 
 TNext == TrTcpCall \/ TrTcpOk \/ SilentTask \/ TrTcpRes \/ TrAccRx \/ TrAccTx \/ TrPeerClose \/ TrAccEof
          \/ TrCall \/ TrRet \/ TrCancel \/ TrRsoon \/ TrDescr \/ TrObs \/ TrEnd \/ SilentOther \/ Advance
+LooseOn == TRUE
 TSpec == TInit /\ [][TNext]_tvars
 
 \* ---- acceptance bookkeeping (workers = 1)
